@@ -195,6 +195,12 @@ static void gen_tweak(chist *h, vh_rng *r, unsigned g)
     o->len = c->id == CIPH_MANTIS ? 8 : (vh_below(r, 3) ? c->bb : 1 + vh_below(r, c->bb));
     if (!vh_below(r, 12)) { o->flags |= F_NULL_PTR; o->cls = "set_tweak(null)"; o->dlen = 0; return; }
     vh_fill_interesting(r, buf, o->len);
+    if (!vh_below(r, 6)) {      /* the same tweak as the previous tweak call: "nothing changed" shortcuts must still behave like a tweak change */
+        int k;
+        for (k = h->n - 2; k >= 0; --k) if (h->ops[k].kind == C_SET_TWEAK && !(h->ops[k].flags & F_NULL_PTR) && h->ops[k].dlen) {
+            o->len = h->ops[k].len; memcpy(buf, h->pool + h->ops[k].doff, o->len); o->cls = "set_tweak(same value again)"; break;
+        }
+    }
     o->doff = pool_put(h, buf, o->len); o->dlen = o->len;
     placement(o, r, g);
 }
